@@ -32,7 +32,7 @@ func init() { core.Register(c07{}) }
 
 func (c07) ID() string { return "C07" }
 func (c07) Rule() string {
-	return "plans (the caller writes into every metadata map it reads back): <= 4 round trips, each: key spec (EC P-256/384/521 generated, RSA 2048/3072/4096 from fixtures) x {JWS, COSE} x OCI descriptor (extra fields, annotations) or blob (0 B - 4 MiB, media types with parameters) x user metadata x expiry duration (0, 1 s, hours) x signing agent x local signer or PluginSigner over an honest scripted plugin (raw-signature or envelope capability) x reader behaviour (plain, short reads, error after k bytes while signing / while verifying); sign at a sub-second sim instant, let sim time pass (< expiry), verify, read back. In half of the runs one PluginSigner is kept across rounds while the key behind its key id is rotated to another strength. non-trivial: every run (each is a full sign/verify round trip); distinct: hash of the knob vector and verdicts"
+	return "plans (the caller writes into every metadata map it reads back): <= 4 round trips, each: key spec (EC P-256/384/521 generated, RSA 2048/3072/4096 from fixtures) x {JWS, COSE} x OCI descriptor (extra fields, annotations) or blob (0 B - 4 MiB, media types with parameters) x user metadata (for blobs sometimes a key that merely resembles the reserved prefix) x expiry duration (0, 1 s, hours) x signing agent x local signer or PluginSigner over an honest scripted plugin (raw-signature or envelope capability) x reader behaviour (plain, short reads, error after k bytes while signing / while verifying); sign at a sub-second sim instant, let sim time pass (< expiry), verify, read back. In half of the runs one PluginSigner is kept across rounds while the key behind its key id is rotated to another strength. non-trivial: every run (each is a full sign/verify round trip); distinct: hash of the knob vector and verdicts"
 }
 func (c07) Components() map[string]string {
 	return map[string]string{
